@@ -9,7 +9,10 @@ def convert_rustworkx_to_networkx(graph):
     if isinstance(graph, rx.PyGraph):
         return nx.Graph(edge_list)
     else:
-        nx_graph = nx.DiGraph(edge_list)
+        nx_graph = nx.DiGraph()
+        # Add the nodes explicitly: a tree without clones has no edges but still has its root node
+        nx_graph.add_nodes_from(node.node_id for node in graph.nodes())
+        nx_graph.add_edges_from(edge_list)
         for node in graph.nodes():
             node_id = node.node_id
             nx_node = nx_graph.nodes[node_id]
